@@ -28,7 +28,20 @@ func vDrain(it *NodeIterator, max int) (got []int, ended bool) {
 func H_nodeset() {
 	doc := vDoc()
 	cur, attr := vContext(doc)
-	e, err := Compile(vParam("expr"))
+	var e *Expr
+	var err error
+	if vHasParam("nsmap") {
+		e, err = CompileWithNS(vParam("expr"), vNSMap(vParam("nsmap")))
+	} else {
+		e, err = Compile(vParam("expr"))
+	}
+	if vHasParam("expecterr") {
+		// an unbound prefix is a compile error
+		vObserve("compile-rejected", err != nil)
+		vFlag("nontrivial")
+		vAssert(err != nil && e == nil, "unbound-prefix-rejected")
+		return
+	}
 	if err != nil {
 		vObserve("compile-error", err.Error())
 		vAssert(false, "compiles")
@@ -44,7 +57,7 @@ func H_nodeset() {
 				vNote("panic", vPanicText(r))
 			}
 		}()
-		it := e.Select(navAt(doc, cur, attr))
+		it := e.Select(vNav(doc, cur, attr))
 		got, ended = vDrain(it, 4*doc.N*(doc.A+1)+2)
 	}()
 	vObserve("panic-class", cls)
@@ -66,4 +79,33 @@ func H_nodeset() {
 		}
 		vAssert(!dup, "each-node-once")
 	}
+}
+
+// vNSMap decodes "nil", "empty" or "p=u1;q=u2".
+func vNSMap(spec string) map[string]string {
+	if spec == "nil" {
+		return nil
+	}
+	m := map[string]string{}
+	if spec == "empty" {
+		return m
+	}
+	k, v, inVal := "", "", false
+	for i := 0; i <= len(spec); i++ {
+		if i == len(spec) || spec[i] == ';' {
+			m[k] = v
+			k, v, inVal = "", "", false
+			continue
+		}
+		if spec[i] == '=' {
+			inVal = true
+			continue
+		}
+		if inVal {
+			v += string(spec[i])
+		} else {
+			k += string(spec[i])
+		}
+	}
+	return m
 }
